@@ -211,7 +211,7 @@ def run(ctx):
         ops.add(case["op"])
         obs = observe(case, i)
         ctx.evaluations += 1
-        sc = {"case": case, "variant": i % 12}
+        sc = {"case": case, "variant": i % 60}
         if isinstance(obs, dict):
             ctx.violation(sc, "crash on valid input: " + obs["crash"])
             continue
@@ -230,7 +230,7 @@ def run(ctx):
             try:
                 iv, rows = observe_rife(case["X"], ctx.rng.randint(1, 3), t, "series" if t % 2 else "array")
             except Exception as e:
-                ctx.violation({"case": case, "variant": t % 12}, "crash: %s %s" % (type(e).__name__, str(e)[:120]))
+                ctx.violation({"case": case, "variant": t % 60}, "crash: %s %s" % (type(e).__name__, str(e)[:120]))
                 continue
             case["p"] = dict(case["p"], iv=iv)
             obs = rows
@@ -238,7 +238,7 @@ def run(ctx):
             obs = observe(case, t)
         ctx.evaluations += 1
         if isinstance(obs, dict):
-            ctx.violation({"case": case, "variant": t % 12}, "crash on valid input: " + obs["crash"])
+            ctx.violation({"case": case, "variant": t % 60}, "crash on valid input: " + obs["crash"])
             continue
         recs.append({"tid": t, "case": case, "obs": obs})
         ctx.nontriv(case)
@@ -246,7 +246,7 @@ def run(ctx):
     ctx.traces += len(recs) - len(rejects)
     for rec in recs:
         if rec["tid"] in rejects:
-            ctx.violation({"case": rec["case"], "variant": rec["tid"] % 12},
+            ctx.violation({"case": rec["case"], "variant": rec["tid"] % 60},
                           "code->spec: TLC rejects %s output %s (%s)"
                           % (rec["case"]["op"], canon(rec["obs"])[:300], rejects[rec["tid"]]))
     return ctx.finish(
